@@ -33,7 +33,7 @@ SPECS = [
         subst={"self.buffer_size": "buffer_size", "self.n_envs": "n_envs"},
     ),
     dict(
-        name="rollout_get_advance", qual="RolloutBuffer.get", start=r"^start_idx \+= ", end=None,
+        name="rollout_get_advance", qual="RolloutBuffer.get", start=r"^start_idx [-+*/%]= ", end=None,
         inputs=[("start_idx", "Z"), ("batch_size", "Z")], outputs=[("start_idx", "Z")],
     ),
     dict(
@@ -42,7 +42,7 @@ SPECS = [
         subst={"self.buffer_size": "buffer_size", "self.n_envs": "n_envs"},
     ),
     dict(
-        name="dictrollout_get_advance", qual="DictRolloutBuffer.get", start=r"^start_idx \+= ", end=None,
+        name="dictrollout_get_advance", qual="DictRolloutBuffer.get", start=r"^start_idx [-+*/%]= ", end=None,
         inputs=[("start_idx", "Z"), ("batch_size", "Z")], outputs=[("start_idx", "Z")],
     ),
 ]
